@@ -185,7 +185,7 @@ class Family(object):
             if len(st.samples) < 2 and (res.nontrivial or st.evaluations > 50):
                 st.samples.append({'family': self.name, 'case': jsonable(case),
                                    'decoded': jsonable(self.describe(case)), 'outcome': res.outcome})
-        st.states = st.evaluations
+        st.states = st.calls if self.kind == 'CHOICE' else st.evaluations
         st.transitions = st.calls
         return st
 
